@@ -8,7 +8,7 @@
 #if defined(WITH_SETS) && defined(HAVE_pair_pE_b) && defined(HAVE_GhostCmp)
 struct aset { uint64_t obj, off; uint64_t n; _Bool has; uint64_t pos; E *buf; };
 extern struct aset g_as[2];
-extern uint64_t g_as_nctor, g_as_ndtor;   /* element constructions / destructions performed inside the abstract sets */
+extern uint64_t g_as_nctor, g_as_ndtor; extern uint64_t pre_as0_n, pre_as1_n; extern _Bool pre_as0_has, pre_as1_has;   /* element constructions / destructions performed inside the abstract sets */
 #define ASET_ROOM 8     /* the opaque buffer has room for this many more elements than the set holds at entry */
 
 static inline struct aset *l0_as(const void *set) {
